@@ -61,6 +61,18 @@ func runC20(p *eng.Prog, r *eng.Report, tier string) {
 	noLossyInDecoders(c, "C20.15", func(f *eng.Fn) bool {
 		return strings.HasPrefix(f.Short, "form.") || strings.HasPrefix(f.Short, "disco/info.")
 	}, 5)
+	// C20.16-C20.21 "including ones decoded from a peer's reply": the decoders
+	// of the forms and of the info payload keep what the peer sent (the same
+	// rules as under C19, over the packages the hash reads)
+	inHashed := func(f *eng.Fn) bool {
+		return strings.HasPrefix(f.Short, "form.") || strings.HasPrefix(f.Short, "disco/info.") || strings.HasPrefix(f.Short, "disco.")
+	}
+	c.r.Floor("C20.16", "entries appended by the decoders of the hashed payloads", decodedEntryAppended(c, "C20.16", inHashed), 1)
+	c.r.Floor("C20.17", "stores of the decoders of the hashed payloads", lossyDecodeStores(c, "C20.17", inHashed), 5)
+	c.r.Floor("C20.18", "start-element arms in the token loops of the hashed payloads", decoderLoopConsumes(c, "C20.18", inHashed), 1)
+	c.r.Floor("C20.19", "start-element edges in the token loops of the hashed payloads", decoderLoopVisitsEveryChild(c, "C20.19", inHashed), 1)
+	decodeTargetsAreFresh(c, "C20.20", inHashed, 1)
+	decodersKeepEveryElement(c, "C20.21", inHashed, 1)
 	hname := "p1"
 	// ---- C20.4b the encoder's output buffer never overlaps the digest ----------
 	nenc := 0
